@@ -4,7 +4,7 @@
            table-driven feature checks of put_model.
    Part 2: numpy helpers (slice [:n], index wrap, fancy index, full-slice assignment).
    Part 3: get_data_into, transcribed: world filter on the flat contact buffer, the efc re-indexing
-           (old = what /repo does, fixed = proposed_fixes/C31_rowless_contact.diff), row gather.
+           (fixed = what /repo does since commit 0698005, old = the explicit definition before that repair, F10), row gather.
    Part 4: put_data, transcribed: tiling of contacts / efc rows over nworld, contact.efc_address rows.
    Part 5: abstract per-field copy (fields as abstract values) driven by the skeleton's lists.  *)
 From Coq Require Import ZArith String List Bool.
